@@ -15,6 +15,7 @@ import (
 )
 
 type Ctx struct {
+	copyFillSeen int // copies checked by copyFillHooks
 	Prog  *core.Program
 	R     *core.Report
 	Tier  string
